@@ -390,6 +390,9 @@ func handlerFn(p int) http.HandlerFunc {
 		switch beh {
 		case "empty", "nil":
 			return
+		case "nl":
+			api.TextResponse(w, r, msgText)
+			return
 		case "err", "status", "wrap":
 			w.WriteHeader(code)
 		}
